@@ -9,12 +9,12 @@ INVS = ['PoolBound', 'IdleBound', 'OpenBound', 'NoDuplicates', 'PooledDisjoint',
         'RecoveryBound', 'CloseClosesAll', 'ClosedAllShut']
 PROPS = ['NoDeadHandout', 'SpareBusy', 'RightAddress', 'NoCollateralClose']
 TRACE_INVS = ['PoolBound', 'IdleBound', 'NoDuplicates', 'PooledDisjoint', 'PooledRightAddress', 'RecoveryBound',
-              'NoWrongAddress', 'NoDeadHandoutTr', 'NoBusyClosed', 'AppendWithinLimit', 'CloseClosedAll', 'NoOtherError', 'NoDupExec', 'NoHealthyMarkedDead']
+              'NoWrongAddress', 'NoDeadHandoutTr', 'NoBusyClosed', 'AppendWithinLimit', 'CloseClosedAll', 'NoOtherError', 'NoDupExec', 'NoHealthyMarkedDead', 'NoDupSignal', 'NoRawRefusal']
 OWN = {'PoolBound': 'C13', 'IdleBound': 'C13', 'OpenBound': 'C13', 'NoDuplicates': 'C13', 'PooledDisjoint': 'C13', 'NoLeak': 'C13',
        'AppendWithinLimit': 'C13',
        'PooledRightAddress': 'C14', 'RecoveryBound': 'C14', 'NoDeadHandout': 'C14', 'RightAddress': 'C14', 'NoWrongAddress': 'C14',
        'NoDeadHandoutTr': 'C14', 'NoOtherError': 'C14',
-       'NoDupExec': 'C04', 'NoHealthyMarkedDead': 'C19', 'NoCollateralClose': 'C19', 'SpareBusy': 'C15', 'CloseClosesAll': 'C15', 'ClosedAllShut': 'C15', 'NoBusyClosed': 'C15', 'CloseClosedAll': 'C15'}
+       'NoDupExec': 'C04', 'NoDupSignal': 'C02', 'NoRawRefusal': 'C14', 'NoHealthyMarkedDead': 'C19', 'NoCollateralClose': 'C19', 'SpareBusy': 'C15', 'CloseClosesAll': 'C15', 'ClosedAllShut': 'C15', 'NoBusyClosed': 'C15', 'CloseClosedAll': 'C15'}
 
 def consts(addrs=('a',), ids=3, callers=(1, 2), maxconns=2, maxidle=1, ka=1, ito=2, maxclock=3, maxcalls=2, kills=1, dev=()):
     return {'Addrs': set(addrs), 'ConnIds': set(range(1, ids + 1)), 'Callers': set(callers), 'MaxConns': maxconns, 'MaxIdle': maxidle,
@@ -50,9 +50,11 @@ def to_steps(acts):
                     break
     return steps
 
-def sched(name, c, acts):
+FORMS = [['call'], ['call', 'go', 'rt'], ['stream', 'call'], ['rt'], ['go', 'stream']]
+
+def sched(name, c, acts, forms=None, ioerr=False):
     cfg = {'Addrs': sorted(c['Addrs']), 'MaxConns': c['MaxConns'], 'MaxIdle': c['MaxIdle'], 'KeepAlive': c['KeepAlive'],
-           'IdleTO': c['IdleTO'], 'UnitMs': 50}
+           'IdleTO': c['IdleTO'], 'UnitMs': 50, 'Forms': forms or ['call'], 'IOErr': ioerr}
     return {'name': name, 'cfg': cfg, 'steps': to_steps(acts)}
 
 def deviation_schedule(tag, c, dev):
@@ -67,7 +69,7 @@ def sim_schedules(tag, c, num, depth, seed_):
     wd = scratch('tsim_' + tag)
     behs, res = simulate(wd, 'Transport.tla', cfg_text('Spec', c, [], []), ['Transport.tla'], num, depth, seed_)
     shutil.rmtree(wd, ignore_errors=True)
-    return [sched('sim:%s:%d' % (tag, i), c, b) for i, b in enumerate(behs)], res
+    return [sched('sim:%s:%d' % (tag, i), c, b, FORMS[i % len(FORMS)], ioerr=(i % 3 == 1)) for i, b in enumerate(behs)], res
 
 def group_key(cfg):
     return '%s_%d_%d' % ('-'.join(cfg['Addrs']), cfg['MaxConns'], cfg['MaxIdle'])
